@@ -13,6 +13,7 @@
    real code. *)
 From Coq Require Import ZArith List Bool Arith.
 From RP Require Import Gen.StatesTables Wait.Model Wait.Inst Wait.Oracle Wait.Proofs Wait.InstProofs.
+From RP Require States.Model States.Proofs States.Inst.
 Import ListNotations.
 
 Notation tmem := (mem tstate_beq).
@@ -254,3 +255,31 @@ Example C15_nonvacuous :
     [(1%Z, (T_AGENT_EXECUTING, [])); (2%Z, (T_AGENT_SCHEDULING, [T_AGENT_SCHEDULING; T_AGENT_EXECUTING]))] UAll
     = Returned (VList [T_AGENT_EXECUTING; T_AGENT_EXECUTING]) 2.
 Proof. vm_compute. repeat split. Qed.
+
+(* ---- the client's end: what wait() looks at ----
+   wait() polls Task.state; the trajectories quantified over above are the
+   states the client's Task objects go through.  They are produced from the
+   notification batches by TaskManager._update_tasks (model: RP.States, the
+   subject of C06).  What C15 needs from it: no batch is ever dropped by an
+   exception (a dropped batch loses the final state of every task in it, and
+   wait() hangs although the awaited state was reached), and Task.state is the
+   end of the chain of states announced so far -- for every history of batches,
+   duplicates, reordering, gaps and contradictory finals included. *)
+Module ClientSide.
+Import RP.States.Model RP.States.Proofs RP.States.Inst.
+Notation tchain := (chain tstate_beq T_DONE T_FAILED T_CANCELED tvalue).
+
+Theorem C15_client_never_drops_a_batch :
+  forall (t : tasks) (b : list (Z * tstate)), snd (t_update_batch t b) = None.
+Proof. exact (history_no_exception _ _ _ _ _ _ _ t_wf). Qed.
+Print Assumptions C15_client_never_drops_a_batch.
+
+Theorem C15_client_state_is_end_of_announced_chain :
+  forall (bs : list (list (Z * tstate))) (t : tasks) (u : Z) (cur : tstate),
+    lookup u t = Some cur ->
+    tchain cur (proj u (snd (t_run_cbs t bs))) /\
+    lookup u (fst (t_run_cbs t bs)) = Some (last_of cur (proj u (snd (t_run_cbs t bs)))).
+Proof. exact (history_chain _ _ _ _ _ _ _ t_wf). Qed.
+Print Assumptions C15_client_state_is_end_of_announced_chain.
+
+End ClientSide.
